@@ -8,7 +8,17 @@ var worldComponents = []string{
 	"stub: TLS (X-Forwarded-Proto), statsd socket (in-memory sink), logging (discarded)",
 }
 
+var schedComponents = []string{
+	"real: internal/pkg/singleflight, internal/pkg/groups (FillCache, LocalCache), internal/auth/circuit, both SingleFlightProvider wrappers, GroupCache, Google/Cognito ValidateGroupMembership — compiled from the current /repo sources with yield points inserted at every Lock/Unlock/Wait/go/select/receive by yieldgen (overlay, nothing committed)",
+	"model: inner providers, fill functions, directory, callers (harness code that parks at every call-back)",
+	"scheduler: seeded cooperative scheduler releasing exactly one parked task per step inside a testing/synctest bubble (virtual clock)",
+}
+
 var props = map[string]propSpec{
+	"C15": {Engine: "sched", Cover: []string{"schedule|"}, QuickRuns: 30000, QuickSecs: 40, ThoroughS: 600, Components: schedComponents,
+		MinReach: []string{"breaker_tripped", "breaker_reset", "breaker_reopened", "half_open_cap_hit", "stale_completion", "stale_completion_across_2_generations", "half_open_cap_with_stale_inflight"}},
+	"C16": {Engine: "sched", Cover: []string{"schedule|"}, QuickRuns: 40000, QuickSecs: 40, ThoroughS: 600, Components: schedComponents,
+		MinReach: []string{"singleflight_join", "late_join_between_completion_and_key_removal", "wrapper_merge"}},
 	"C01": {Engine: "world", Cover: []string{"C05|", "C13.A1", "C04.A3"}, QuickRuns: 1200, QuickSecs: 40, ThoroughS: 600, Components: worldComponents,
 		MinReach: []string{"cross_host_cookie_refused", "wrong_provider_refused", "lifetime_expired_refused", "skip_auth_arrival", "revalidation_refused"}},
 	"C02": {Engine: "world", Cover: []string{"C06.A", "C08.A2"}, QuickRuns: 1200, QuickSecs: 40, ThoroughS: 600, Components: worldComponents},
@@ -27,6 +37,8 @@ var props = map[string]propSpec{
 	"C12": {Engine: "world", QuickRuns: 1200, QuickSecs: 40, ThoroughS: 600, Components: worldComponents, MinReach: []string{"l5_tamper_judged"}},
 	"C13": {Engine: "world", Cover: []string{"C01.A2"}, QuickRuns: 1200, QuickSecs: 40, ThoroughS: 600, Components: worldComponents, MinReach: []string{"cross_host_cookie_refused"}},
 	"C14": {Engine: "world", QuickRuns: 1200, QuickSecs: 40, ThoroughS: 600, Components: worldComponents, MinReach: []string{"c14_load_refused"}},
+	"C17": {Engine: "sched", Cover: []string{"schedule|"}, QuickRuns: 20000, QuickSecs: 40, ThoroughS: 600, Components: schedComponents,
+		MinReach: []string{"answer_from_cache", "partial_cache_fallback", "localcache_hit", "refresh_loop_started", "refresh_loop_already_running", "bounded_progress_checked", "porcupine_ok"}},
 	"C18": {Engine: "world", QuickRuns: 1200, QuickSecs: 40, ThoroughS: 600, Components: worldComponents, MinReach: []string{"https_redirect"}},
 	"C19": {Engine: "world", QuickRuns: 1200, QuickSecs: 40, ThoroughS: 600, Components: worldComponents, MinReach: []string{"signed_out", "signout_revoke_failed"}},
 	"C20": {Engine: "world", QuickRuns: 1200, QuickSecs: 40, ThoroughS: 600, Components: worldComponents, MinReach: []string{"c20_twin_compared"}},
